@@ -35,8 +35,31 @@ pub fn check_synth(ctx: &Ctx, genome: &[u16]) -> CaseReport {
         }
     }
     if f.glyph_order.is_some() && run { f.glyph_order = None; }
+    // feature code whose lookups decide usMaxContext: a ligature, a chaining rule with lookahead, a reverse chaining rule, a pair
+    let pool: Vec<String> = f.glyphs.iter().filter(|x| x.export && x.name != ".notdef" && x.name.chars().all(|c| c.is_ascii_alphanumeric() || c == '.' || c == '_') && x.name.chars().next().map_or(false, |c| c.is_ascii_alphabetic())).map(|x| x.name.clone()).collect();
+    let mut fea_kinds: Vec<&str> = vec![];
+    if pool.len() >= 2 && sg.chance(1, 2) {
+        let pick = |g: &mut Gen| pool[g.below(pool.len())].clone();
+        let mut t = String::new();
+        for (k, kind) in ["ligature", "chain", "reverse-chain", "pair"].iter().enumerate() {
+            if !sg.chance(1, 2) { continue; }
+            let (nb, na) = (sg.below(4), sg.below(4));
+            let back: Vec<String> = (0..nb).map(|_| pick(&mut sg)).collect(); let ahead: Vec<String> = (0..na).map(|_| pick(&mut sg)).collect();
+            let (a, b) = (pick(&mut sg), pick(&mut sg));
+            let rule = match *kind {
+                "ligature" => format!("sub {} by {};", (0..2 + nb).map(|_| pick(&mut sg)).collect::<Vec<_>>().join(" "), a),
+                "chain" => format!("sub {} {}' {} by {};", back.join(" "), a, ahead.join(" "), b),
+                "reverse-chain" => format!("rsub {} {}' {} by {};", back.join(" "), a, ahead.join(" "), b),
+                _ => format!("pos {a} {b} -{};", 10 + nb),
+            };
+            t.push_str(&format!("feature {} {{\n  lookup M{k} {{\n    {rule}\n  }} M{k};\n}} {};\n", ["liga", "calt", "rclt", "kern"][k], ["liga", "calt", "rclt", "kern"][k]));
+            fea_kinds.push(kind);
+        }
+        if !t.is_empty() { f.features = Some(t); }
+    }
     rep.key = f.hash() ^ fnv_str(&opts.label());
     classify(&mut rep, &f);
+    for k in &fea_kinds { rep.class(format!("feature-code:{k}")); }
     if shift { rep.class("negative-bearings"); } if run { rep.class("trailing-equal-advances"); }
     if f.glyphs.iter().any(|g| g.sources[&0].advance == 0.0) { rep.class("zero-advance-glyph"); }
     if f.glyphs.iter().any(|g| g.codepoints.iter().any(|c| *c > 0xFFFF)) { rep.class("supplementary-codepoint"); }
